@@ -40,7 +40,7 @@ std::string json_escape(const std::string &s) {
 }
 
 // ---------------------------------------------------------------- aggregate
-static bool is_max_key(const std::string &k) { return k.find(".max_") != std::string::npos; }
+static bool is_max_key(const std::string &k) { return k.find(".max_") != std::string::npos || k.find("max_") == 0; }
 
 void Agg::add(const Plan &p, const Result &r) {
     evaluations++; steps += r.steps; calls += r.calls;
@@ -264,8 +264,11 @@ static void worker_main(const std::vector<Batch> &batches, const std::string &pr
             if (sh->stop) goto out;
             sh->slots[w].batch = b; sh->slots[w].index = i;
             arm_watchdog(watchdog_seconds());
+            clock_t c0 = clock();
             Plan p = e->generate(seed, prop, i, tier);
             Result r = e->execute(p, ctx);
+            uint64_t ms = (uint64_t)((clock() - c0) * 1000 / CLOCKS_PER_SEC);
+            r.cnt["perf.max_run_cpu_ms"] = ms;      // slowest single run (CPU time): must stay far below the watchdog
             agg.add(p, r);
             sh->slots[w].done++;
             if (!r.ok() && ff) {
